@@ -169,6 +169,14 @@ fn main() {
                 corpus: corpus_cache.take(),
                 describe: false,
             };
+            // fault provocation before some cases (a pure function of the case, like the case itself)
+            {
+                let mut pr = Rng::for_case(seed ^ 0xfa17, prop.num, sno as u32, eff);
+                if pr.chance(1, 16) {
+                    vp_harness::exec::provoke_failures(&mut pr);
+                    ctx.rep.bucket("provoked_failures_before_case");
+                }
+            }
             (prop.run)(&mut ctx);
             corpus_cache = ctx.corpus.take();
             done += 1;
